@@ -31,7 +31,7 @@ def withdraw_msg(pool_id):
 def setup_funded_pool(I, ptype=None, decs=(6, 6), fees=None):
     x = I.sym('reserve_x', lo=1, hi=U128)
     y = I.sym('reserve_y', lo=1, hi=U128)
-    S = I.sym('lp_supply', lo=MINLIQ + 1, hi=U128)
+    S = I.sym('lp_supply', lo=MINLIQ, hi=U128)          # from exactly the locked minimum (a pool drained by its providers) upwards
     if fees is None:
         fees, _ = sym_fees(I, 0)
     pool = pool_info('p1', ['uA', 'uB'], list(decs), [x, y], ptype or xyk(), fees)
